@@ -165,6 +165,10 @@ structure PipeCfg where
 inductive BuildErr
   /-- `"could not fetch connector"` -/
   | connector
+  /-- `connector.ErrConnectorRunning` from `instance.Connector(…)`: the connector instance is open in a
+  live run (never produced by `buildWorkers`, which models one build on idle connectors; used by
+  `Model/Rebuild.lean`) -/
+  | connRunning
   /-- `"could not fetch processor"` -/
   | processor
   /-- `processor.ErrProcessorRunning`: `MakeRunnableProcessor` reserves the instance
